@@ -473,3 +473,245 @@ M.contract(P_PSV + ':SymbolsValidator.validate', params=dict(self=VALIDATOR), mo
            ensures={'all five phases, in execution order, with the one shared table; none of them failed':
                     lambda self, trace: len(trace) == 5 and _is_prefix_of_execution_order(self, trace)},
            raises_only=())
+
+
+# ------------------------------------------------------------------------------ type checks (restrictions)
+# "every reference is checked against the type demanded by its context, transitively through the symbols
+# it is built from".  The concrete restriction classes are proved to decide exactly:
+#   direct     the value type of the referenced symbol is one of the accepted types
+#   indirect   every symbol reachable through the references of the value satisfies the indirect restriction
+#   or         the first part whose selector is the type of the symbol decides; no such part => failure
+
+from contracts.common import recursive
+from exactly_lib.symbol import value_type as vt_module
+from exactly_lib.type_val_deps.sym_ref import restrictions as plain_restrictions
+from exactly_lib.type_val_deps.sym_ref.w_str_rend_restrictions import reference_restrictions as rr
+from exactly_lib.type_val_deps.sym_ref.w_str_rend_restrictions import value_restrictions as vr
+from exactly_lib.type_val_deps.sym_ref.w_str_rend_restrictions.data_value_restriction import ValueRestriction
+
+P_RR = 'exactly_lib.type_val_deps.sym_ref.w_str_rend_restrictions.reference_restrictions'
+P_VR = 'exactly_lib.type_val_deps.sym_ref.w_str_rend_restrictions.value_restrictions'
+P_PR = 'exactly_lib.type_val_deps.sym_ref.restrictions'
+
+
+@M.check('value-type-maps')
+def _value_type_maps(ctx):
+    """The two enum maps of symbol/value_type.py: total on WithStrRenderingType, mutually inverse, name preserving."""
+    w2v, v2w = vt_module.W_STR_RENDERING_TYPE_2_VALUE_TYPE, vt_module.VALUE_TYPE_2_W_STR_RENDERING_TYPE
+    for t in WithStrRenderingType:
+        ctx.obligation('W_STR_RENDERING_TYPE_2_VALUE_TYPE[%s] is the value type of the same name' % t.name,
+                       t in w2v and w2v[t].name == t.name and v2w.get(w2v[t]) is t, 'enumeration')
+    for v in ValueType:
+        ok = (v in v2w and w2v[v2w[v]] is v) if v.name in WithStrRenderingType.__members__ else v not in v2w
+        ctx.obligation('VALUE_TYPE_2_W_STR_RENDERING_TYPE at %s: inverse, defined exactly for the data types' % v.name,
+                       ok, 'enumeration')
+    ctx.obligation('VALUE_TYPES_W_STR_RENDERING == {STRING, PATH, LIST}',
+                   set(vt_module.VALUE_TYPES_W_STR_RENDERING) == {ValueType.STRING, ValueType.PATH, ValueType.LIST},
+                   'enumeration')
+
+
+# error messages: outside the property (never None)
+for _q, _params in (
+        ('exactly_lib.symbol.err_msg.error_messages:invalid_type_msg',
+         dict(expected_value_types=Any_, symbol_name=Str, container_of_actual=CONTAINER)),
+):
+    M.contract(_q, trusted=True, params=_params, returns=Any_)
+M.trust('symbol.err_msg.error_messages.invalid_type_msg only builds a message object (never None); values in a '
+        'symbol table are SymbolDependentValue:s (otherwise it raises TypeError)')
+
+
+# --- direct restriction on with-str-rendering types
+
+def _subsets(xs):
+    out = [()]
+    for x in xs:
+        out = out + [s + (x,) for s in out]
+    return out
+
+
+_ACCEPTED = Union(*[Const(s) for s in _subsets(tuple(WithStrRenderingType))])     # full domain (order-insensitive)
+
+M.contract(P_VR + ':ArbitraryValueWStrRenderingRestriction.__init__',
+           params=dict(self=Inst(vr.ArbitraryValueWStrRenderingRestriction), accepted=_ACCEPTED), inline=True,
+           ensures={'accepted value types are those of the same names': lambda self, accepted:
+           [v.name for v in self._accepted] == [t.name for t in accepted] and self.accepted is accepted},
+           raises_only=())
+
+
+def _mk_arbitrary(interp, name):
+    r = object.__new__(vr.ArbitraryValueWStrRenderingRestriction)
+    acc = _ACCEPTED.make(interp, name + '.accepted')
+    r._accepted__w_str_rendering = acc
+    r._accepted = tuple(ValueType[t.name] for t in acc)      # established by __init__ (proved above)
+    return r
+
+
+ARBITRARY = Custom(_mk_arbitrary)
+
+M.contract(P_VR + ':ArbitraryValueWStrRenderingRestriction.is_satisfied_by',
+           params=dict(self=ARBITRARY, symbol_table=TABLE, symbol_name=Str, container=CONTAINER),
+           returns=Opt(Any_),
+           ensures={'satisfied iff the type of the symbol is one of the accepted types': lambda self, container, result:
+           iff(result is None, any(t.name == container.value_type.name for t in self.accepted))},
+           raises_only=())
+
+# --- plain value-type restriction (matchers, programs, ...)
+
+M.contract(P_PR + ':ValueTypeRestriction.is_satisfied_by',
+           params=dict(self=Inst(plain_restrictions.ValueTypeRestriction, _expected=ListOf(EnumOf(ValueType))),
+                       symbol_table=TABLE, symbol_name=Str, container=CONTAINER),
+           returns=Opt(Any_),
+           ensures={'satisfied iff the type of the symbol is one of the expected types': lambda self, container, result:
+           iff(result is None, exists_range(0, len(self._expected),
+                                            lambda j: self._expected[j] is container.value_type))},
+           raises_only=())
+
+
+# --- direct + indirect
+
+def _value_is_satisfied_by(interp, self, args, kwargs):
+    """ValueRestriction.is_satisfied_by: a deterministic function (ghost VSAT) of the restriction, the table and
+    the name; does not change the table.  Proved for ArbitraryValueWStrRenderingRestriction above (which only
+    looks at the container); PathAndRelativityRestriction resolves the path against the table (C12)."""
+    table, name, container = (list(args) + [kwargs[k] for k in ('symbol_table', 'symbol_name', 'container')
+                                            if k in kwargs])[:3]
+    st = interp.st
+    pre = interp.truth(interp.call(_asked_about_own_entry, [table, name, container], {}))
+    st.oblige('%s : requires of ValueRestriction.is_satisfied_by (container is the table entry of the name)'
+              % interp.current_function_name(), pre, {'kind': 'callee-pre'})
+    st.assume(pre)
+    r = Opt(Any_).make(interp, 'error')
+    st.assume(interp.truth(interp.call(_vsat_result, [self, table, name, r], {})))
+    return r
+
+
+def _vsat_result(restriction, table, name, r):
+    return iff(r is None, restriction.VSAT(view(table), name))
+
+
+class ValueRestrictionI(Interface):
+    target_class = ValueRestriction
+    by_id = True
+    methods = {'VSAT': Method(returns=Bool, pure=True),
+               'is_satisfied_by': Method(model=_value_is_satisfied_by)}
+
+
+VALUE_RESTRICTION = Iface(ValueRestrictionI)
+
+
+def vsat(restriction, T, name):
+    if is_opaque(restriction):
+        return restriction.VSAT(T, name)
+    return restriction.is_satisfied_by(SymbolTable(dict(T)), name, T[name]) is None
+
+
+@recursive
+def closed_refs(T, refs):
+    """every symbol reachable through the references is in the table"""
+    return forall_range(0, len(refs), lambda m: refs[m].name in T
+                                                and closed_refs(T, T[refs[m].name].sdv.references))
+
+
+@recursive
+def all_reachable_ok(indirect, T, refs):
+    """every symbol reachable through the references satisfies the indirect restriction"""
+    return forall_range(0, len(refs), lambda m: refs[m].name in T and vsat(indirect, T, refs[m].name)
+                                                and all_reachable_ok(indirect, T, T[refs[m].name].sdv.references))
+
+
+DIRECT_AND_INDIRECT = Inst(rr.ReferenceRestrictionsOnDirectAndIndirect, _direct=VALUE_RESTRICTION,
+                           _indirect=Opt(VALUE_RESTRICTION), _meaning_of_failure_of_indirect_reference=Any_)
+DIRECT_AND_SOME_INDIRECT = Inst(rr.ReferenceRestrictionsOnDirectAndIndirect, _direct=VALUE_RESTRICTION,
+                                _indirect=VALUE_RESTRICTION, _meaning_of_failure_of_indirect_reference=Any_)
+
+M.assume('tables handed to is_satisfied_by are closed under references (closed_refs): a definition enters the '
+         'validation table only after each of its references was found in it (def_ok, proved) and tables only grow '
+         '(step, proved); monotonicity of closed_refs in the table needs induction and is not proved')
+
+M.contract(P_RR + ':ReferenceRestrictionsOnDirectAndIndirect._check_indirect',
+           params=dict(self=DIRECT_AND_SOME_INDIRECT, symbol_table=TABLE, path_to_referring_symbol=ListOf(Str),
+                       references=ListOf(REFERENCE)),
+           requires=lambda symbol_table, references: closed_refs(view(symbol_table), references),
+           returns=Opt(Any_),
+           ensures={'none iff every reachable symbol satisfies the indirect restriction':
+                    lambda self, symbol_table, references, result:
+                    iff(result is None, all_reachable_ok(self._indirect, view(symbol_table), references))},
+           raises_only=())
+
+M.loop(P_RR + ':ReferenceRestrictionsOnDirectAndIndirect._check_indirect', 0,
+       invariant=lambda _i, self, symbol_table, references:
+       forall_range(0, _i, lambda m: references[m].name in view(symbol_table)
+                                     and vsat(self._indirect, view(symbol_table), references[m].name)
+                                     and all_reachable_ok(self._indirect, view(symbol_table),
+                                                          view(symbol_table)[references[m].name].sdv.references)),
+       modifies=dict(reference='local', container='local', result='local'))
+
+M.contract(P_RR + ':ReferenceRestrictionsOnDirectAndIndirect.check_indirect',
+           params=dict(self=DIRECT_AND_SOME_INDIRECT, symbol_table=TABLE, references=ListOf(REFERENCE)),
+           requires=lambda symbol_table, references: closed_refs(view(symbol_table), references),
+           returns=Opt(Any_),
+           ensures={'none iff every reachable symbol satisfies the indirect restriction':
+                    lambda self, symbol_table, references, result:
+                    iff(result is None, all_reachable_ok(self._indirect, view(symbol_table), references))},
+           raises_only=())
+
+M.contract(P_RR + ':ReferenceRestrictionsOnDirectAndIndirect.is_satisfied_by',
+           params=dict(self=DIRECT_AND_INDIRECT, symbol_table=TABLE, symbol_name=Str, container=CONTAINER),
+           requires=lambda symbol_table, symbol_name, container:
+           _asked_about_own_entry(symbol_table, symbol_name, container)
+           and closed_refs(view(symbol_table), container.sdv.references),
+           returns=Opt(Any_),
+           ensures={'satisfied iff direct restriction on the symbol and indirect restriction on all it is built from':
+                    lambda self, symbol_table, symbol_name, container, result:
+                    iff(result is None,
+                        vsat(self._direct, view(symbol_table), symbol_name)
+                        and (self._indirect is None
+                             or all_reachable_ok(self._indirect, view(symbol_table), container.sdv.references)))},
+           raises_only=())
+
+M.assume('termination of _check_indirect is not verified: the reference graph of a validated table is acyclic '
+         '(a definition only refers to symbols defined before it)')
+
+
+# --- or-restrictions: the first part whose selector is the type of the symbol decides
+
+class OrPartI(Interface):
+    """OrRestrictionPart(selector, restriction); the restriction is a ReferenceRestrictionsOnDirectAndIndirect,
+    used through the contract proved above (ghost SAT)."""
+    target_class = rr.OrRestrictionPart
+    attrs = {'selector': EnumOf(WithStrRenderingType), 'restriction': Iface(RestrictionsI)}
+
+
+OR_RESTRICTIONS = Inst(rr.OrReferenceRestrictions, _parts=ListOf(Iface(OrPartI)),
+                       _sym_name_and_container_2_err_msg_if_no_matching_part=Any_)
+
+M.contract(P_RR + ':OrReferenceRestrictions._no_satisfied_restriction', trusted=True,
+           params=dict(self=OR_RESTRICTIONS, symbol_name=Str, container=CONTAINER), returns=Any_)
+M.trust('OrReferenceRestrictions._no_satisfied_restriction only builds a failure object (never None)')
+
+
+def or_satisfied(parts, T, name, value_type):
+    """the value type has a string rendering, some part selects it, and the first such part is satisfied"""
+    if value_type.name not in WithStrRenderingType.__members__:
+        return False
+    w = WithStrRenderingType[value_type.name]
+    return exists_range(0, len(parts), lambda j:
+    parts[j].selector is w and forall_range(0, j, lambda m: parts[m].selector is not w)
+    and sat(parts[j].restriction, T, name))
+
+
+M.contract(P_RR + ':OrReferenceRestrictions.is_satisfied_by',
+           params=dict(self=OR_RESTRICTIONS, symbol_table=TABLE, symbol_name=Str, container=CONTAINER),
+           requires=lambda symbol_table, symbol_name, container:
+           _asked_about_own_entry(symbol_table, symbol_name, container),
+           returns=Opt(Any_),
+           ensures={'the first part whose selector is the type of the symbol decides; none => failure':
+                    lambda self, symbol_table, symbol_name, container, result:
+                    iff(result is None, or_satisfied(self._parts, view(symbol_table), symbol_name,
+                                                     container.value_type))},
+           raises_only=())
+
+M.loop(P_RR + ':OrReferenceRestrictions.is_satisfied_by', 0,
+       invariant=lambda _i, self, type_w_str_rendering:
+       forall_range(0, _i, lambda m: self._parts[m].selector is not type_w_str_rendering),
+       modifies=dict(part='local'))
